@@ -743,3 +743,139 @@ func meetSafe(g, h Ty) bool {
 	}
 	return conf(g, h) || conf(h, g)
 }
+
+// ---------------------------------------------------------------------------------------------
+// Unions of leaf types that share alternatives, and the meet of two flowing types (for the step X = Y).
+
+var unionLeafPool = []Ty{tyName, tyPrefix("/foo"), tyString, tyNumber, tyPrefix("/foo/bar"), tyPrefix("/a"),
+	tyString, tyNumber, tyFloat, tySingleton("/b"), tyPrefix("/foobar"), tyName}
+
+// neighbours lists the name types one step above and below a name type.
+func neighbours(a Ty) []Ty {
+	switch {
+	case a.K == "name":
+		return []Ty{tyPrefix("/foo"), tyPrefix("/a"), tySingleton("/b")}
+	case a.K == "prefix" && a.Name == "/foo":
+		return []Ty{tyName, tyPrefix("/foo/bar"), tySingleton("/foo/x")}
+	case a.K == "prefix" && a.Name == "/foo/bar":
+		return []Ty{tyPrefix("/foo"), tyName}
+	case a.K == "prefix":
+		return []Ty{tyName}
+	case a.K == "singleton":
+		res := []Ty{tyName}
+		if i := strings.LastIndex(a.Name, "/"); i > 0 {
+			res = append(res, tyPrefix(a.Name[:i]))
+		}
+		return res
+	}
+	return nil
+}
+
+// genLeafUnion draws a union of two or three distinct leaf types. If earlier unions of the case are given
+// it is mostly derived from one of them: some of its alternatives are kept, one may move a step up or
+// down the name hierarchy (/name - /foo - /foo/bar, a singleton), the rest is drawn from a small pool, so
+// that the unions of a case overlap without being comparable.
+func genLeafUnion(t *rapid.T, earlier []Ty) Ty {
+	var alts []Ty
+	seen := map[string]bool{}
+	add := func(x Ty) {
+		if !seen[x.key()] && len(alts) < 3 {
+			seen[x.key()] = true
+			alts = append(alts, x)
+		}
+	}
+	if len(earlier) > 0 && rapid.IntRange(0, 3).Draw(t, "related-union") > 0 {
+		p := earlier[rapid.IntRange(0, len(earlier)-1).Draw(t, "like")]
+		var named []int // alternatives with a neighbour in the name hierarchy
+		for i, a := range p.Args {
+			if len(neighbours(a)) > 0 {
+				named = append(named, i)
+			}
+		}
+		if len(named) > 0 && rapid.Bool().Draw(t, "name-step") {
+			// one alternative moves a step up or down the name hierarchy, another one stays
+			i := named[rapid.IntRange(0, len(named)-1).Draw(t, "moved")]
+			ns := neighbours(p.Args[i])
+			j := rapid.IntRange(0, len(p.Args)-2).Draw(t, "stays")
+			if j >= i {
+				j++
+			}
+			add(p.Args[j])
+			add(ns[rapid.IntRange(0, len(ns)-1).Draw(t, "neighbour")])
+		} else {
+			// a proper part of the alternatives stays
+			mask := rapid.IntRange(1, 1<<len(p.Args)-2).Draw(t, "keep")
+			for i, a := range p.Args {
+				if mask&(1<<i) != 0 {
+					add(a)
+				}
+			}
+		}
+	}
+	n := rapid.IntRange(2, 3).Draw(t, "nalts")
+	for i := rapid.IntRange(0, len(unionLeafPool)-1).Draw(t, "pool"); len(alts) < n; i++ {
+		add(unionLeafPool[i%len(unionLeafPool)])
+	}
+	rot := rapid.IntRange(0, len(alts)-1).Draw(t, "rotate")
+	alts = append(append([]Ty{}, alts[rot:]...), alts[:rot]...)
+	return tyUnion(alts...)
+}
+
+// meetTy gives the type whose members are the common members of a and b, by the documented meaning of the
+// type expressions, where that is obvious: equal types, /any on one side, and types whose alternatives
+// are leaves (two leaves with a common member are comparable, so the meet is the union of the smaller one
+// of every comparable pair of alternatives). ok=false if it is not obvious or the meet has no member.
+func meetTy(a, b Ty) (Ty, bool) {
+	switch {
+	case a.key() == b.key():
+		return a, true
+	case a.K == "any":
+		return b, true
+	case b.K == "any":
+		return a, true
+	case !leafOnly(a) || !leafOnly(b):
+		return Ty{}, false
+	}
+	var alts []Ty
+	seen := map[string]bool{}
+	add := func(x Ty) {
+		if !seen[x.key()] {
+			seen[x.key()] = true
+			alts = append(alts, x)
+		}
+	}
+	for _, x := range alternatives(a) {
+		for _, y := range alternatives(b) {
+			if leafConforms(x, y) {
+				add(x)
+			} else if leafConforms(y, x) {
+				add(y)
+			}
+		}
+	}
+	// an alternative below another one adds nothing
+	var res []Ty
+	for i, x := range alts {
+		subsumed := false
+		for j, y := range alts {
+			subsumed = subsumed || i != j && leafConforms(x, y)
+		}
+		if !subsumed {
+			res = append(res, x)
+		}
+	}
+	switch len(res) {
+	case 0:
+		return Ty{}, false
+	case 1:
+		return res[0], true
+	}
+	return tyUnion(res...), true
+}
+
+// exactMeet (K51): the checker's meet of two state types is known to be the set of common members: equal
+// types, /any on one side, or alternatives that are all leaves (symbols.LowerBound goes through the
+// alternatives of both unions; only structured alternatives that overlap without being comparable are lost).
+func exactMeet(g, h Ty) bool {
+	return g.key() == h.key() || g.K == "any" || h.K == "any" || leafOnly(g) && leafOnly(h)
+}
